@@ -14,7 +14,7 @@ from mc.engine import Acc
 LEVEL = 'exploration'
 RULE = ('full product: roots of x^2-d, x^3-d, exp(x)-d, log(x)-d, tanh(x)-d, x^3+x-d and the two-component d0*x-d1 and the three-component d0*x^2+d1*x-d2 x guesses '
         'on both sides of the root x layouts of d {single chain, two replicas irregular, two ensembles, with covariance input, '
-        'pure covariance input}; integrals of p0+p1 x+p2 x^2, exp(p0 x), sin(p0 x), cos(p0 x)+p1, p0/(1+x^2) x every subset of '
+        'pure covariance input}, d with central value exactly 0 (covariance input, symmetric samples, first component of a vector); integrals of p0+p1 x+p2 x^2, exp(p0 x), sin(p0 x), cos(p0 x)+p1, p0/(1+x^2) x every subset of '
         '{every parameter, a, b} being observables (2^k subsets) x assignment of layouts to the observable slots {all equal, different '
         'configuration subsets, different ensembles, covariance inputs} x orientation a<b and a>b; no observable => scipy\'s '
         'tuple.  Non-trivial = at least one observable and not (single chain, equal layouts)')
@@ -57,6 +57,7 @@ def build(tier, seed):
         for lay in D_LAYOUTS:
             cases.append({'kind': 'root', 'fam': fam, 'lay': lay})
     cases.append({'kind': 'root-vector'})
+    cases.append({'kind': 'root-zero'})
     for integ in INTEGRANDS:
         cases.append({'kind': 'quad', 'integrand': integ})
     return cases
@@ -71,6 +72,8 @@ def run_case(case):
             run_root(pe, acc, case)
         elif case['kind'] == 'root-vector':
             run_root_vector(pe, acc, case)
+        elif case['kind'] == 'root-zero':
+            run_root_zero(pe, acc, case)
         else:
             run_quad(pe, acc, case)
     return acc
@@ -100,6 +103,54 @@ def run_root(pe, acc, case):
         else:
             acc.ok(('root', case['fam'], case['lay'], g), case['lay'] != 'single', 'root')
     acc.sample({'kind': 'root', 'family': case['fam'], 'd_layout': case['lay'], 'guesses': guesses})
+
+
+def run_root_zero(pe, acc, case):
+    """d with central value exactly zero (covariance input with mean 0, symmetric samples, first component of a vector)"""
+    a = anp()
+    sym = np.array([0.3, -0.3, 0.1, -0.1, 0.25, -0.25, 0.05, -0.05])
+    ds = {'cov0': pe.cov_Obs(0.0, 0.04 ** 2, 'cvz'), 'symmetric-samples': pe.Obs([sym], ['A|r1']),
+          'two-replicas': pe.Obs([sym, -2 * sym[:6]], ['A|r1', 'A|r2'])}
+    fams = {'tanh(x)-d': (lambda x, d: a.tanh(x) - d, lambda x: 1.0), 'x^3+x-d': (lambda x, d: x ** 3 + x - d, lambda x: 1.0),
+            'sinh(2x)-d': (lambda x, d: a.sinh(2 * x) - d, lambda x: 0.5)}
+    for dn, d in ds.items():
+        rd = compare.to_ref(d)
+        if rd['value'] != 0.0:
+            raise engine.MachineryError('zero-valued d expected, got %r' % rd['value'])
+        for fn, (f, dxdd) in fams.items():
+            for g in (0.3, -0.2):
+                sub = dict(case, d=dn, fam=fn, guess=g)
+                try:
+                    x = pe.roots.find_root(d, f, guess=g)
+                except Exception as e:
+                    acc.fail('root-zero:raised', sub, 'find_root(%s) with d = 0 (%s) raised %s: %s' % (fn, dn, type(e).__name__, e))
+                    continue
+                exp = ref.r_propagate(0.0, [dxdd(0.0)], [rd])
+                exp['scale'] = max(exp['scale'], 1e-3)
+                got = compare.to_ref(x)
+                bad = ('value %r' % got['value']) if not abs(got['value']) < 1e-10 else ref.close(dict(exp, value=got['value']), got, 1e-8)
+                if bad:
+                    acc.fail('root-zero', sub, 'root of %s for d with central value 0 (%s): %s' % (fn, dn, bad))
+                else:
+                    acc.ok(('rootz', dn, fn, g), True, 'root-zero')
+    # vector d whose FIRST component vanishes: root of d0*x^2 + d1*x - d2 with d0 = 0 is d2/d1
+    d0 = pe.cov_Obs(0.0, 0.03 ** 2, 'cvz')
+    d1 = alpha.make_obs(pe, {'A|r1': 'c12'}, ('c09z', 1), 'white', 1.4, 0.03)[0]
+    d2 = alpha.make_obs(pe, {'B|r1': 's3'}, ('c09z', 2), 'white', 2.1, 0.03)[0]
+    rs = [compare.to_ref(d) for d in (d0, d1, d2)]
+    xv = rs[2]['value'] / rs[1]['value']
+    den = rs[1]['value']
+    exp = ref.r_propagate(xv, [-xv * xv / den, -xv / den, 1.0 / den], rs)
+    try:
+        x = pe.roots.find_root([d0, d1, d2], lambda x, d: d[0] * x ** 2 + d[1] * x - d[2], guess=1.0)
+        bad = ref.close(exp, compare.to_ref(x), 1e-8)
+    except Exception as e:
+        bad = 'raised %r' % e
+    if bad:
+        acc.fail('root-zero:vector', dict(case, what='vector'), 'vector d with vanishing first component: %s' % bad)
+    else:
+        acc.ok('rootz-vector', True, 'root-zero')
+    acc.sample({'kind': 'root-zero', 'd': list(ds), 'families': list(fams)})
 
 
 def _newton(f, df, x):
